@@ -641,7 +641,8 @@ fn check_model(c: &Case) -> String {
     };
     let cap = req.max(expected.as_ref().map(|e| e.bytes.len()).unwrap_or(0)).min(1 << 20) + 8;
     let mut enc: Vec<Result<Vec<u8>, String>> = vec![];
-    for (off, fb) in [(0usize, 0u8), (1, 0), (1, 0xFF)] {
+    // (0xFFFF in the checksum field counts as zero in one's complement arithmetic, so a second stale pattern is used too)
+    for (off, fb) in [(0usize, 0u8), (1, 0), (1, 0xFF), (1, 0xA5)] {
         let mut a = Aligned::new(cap, fb);
         let r = vpc::catch(|| subj.try_encode(a.slice(off, cap)));
         match r {
@@ -702,10 +703,12 @@ fn check_model(c: &Case) -> String {
             let o = first_diff(b, a);
             c.viol(&format!("alignment-dependent-encoding@{}", field_at(m, hl_subject, o)), "encoding at offset 1 differs from encoding at offset 0", || json!({"offset": o, "at0": hexcap(a), "at1": hexcap(b)}));
         }
-        if let Ok(cff) = &enc[2] {
-            if cff != b {
-                let o = first_diff(cff, b);
-                c.viol(&format!("unwritten-bytes@{}", field_at(m, hl_subject, o)), "encoder leaves bytes of its announced range unwritten (stale buffer content reaches the wire)", || json!({"offset": o, "zero_prefilled": hexcap(b), "ff_prefilled": hexcap(cff)}));
+        for stale in [&enc[2], &enc[3]] {
+            if let Ok(cff) = stale {
+                if cff != b {
+                    let o = first_diff(cff, b);
+                    c.viol(&format!("unwritten-bytes@{}", field_at(m, hl_subject, o)), "encoder leaves bytes of its announced range unwritten or lets stale buffer content influence the encoding (stale content reaches the wire)", || json!({"offset": o, "zero_prefilled": hexcap(b), "stale_prefilled": hexcap(cff)}));
+                }
             }
         }
     }
@@ -1498,7 +1501,7 @@ pub fn run(args: &vpc::Args) -> ! {
             "exhaustive": true,
             "spaces": per_space,
             "witnesses_per_violation_class": witness_counts,
-            "bound": format!("{} tier: every element of the listed spaces (mixed-radix products, no sampling); each accepted model encoded at offset 0/zero-filled, offset 1/zero-filled, offset 1/0xFF-filled of an 8-aligned allocation and via try_encode_to_vec; decoded at offsets 0 and 1; reverse direction = {} tweaks per member of the spaces marked reverse", args.tier.name(), TWEAKS.len()),
+            "bound": format!("{} tier: every element of the listed spaces (mixed-radix products, no sampling); each accepted model encoded at offset 0/zero-filled, offset 1/zero-filled, offset 1/0xFF-filled and offset 1/0xA5-filled of an 8-aligned allocation and via try_encode_to_vec; decoded at offsets 0 and 1; reverse direction = {} tweaks per member of the spaces marked reverse", args.tier.name(), TWEAKS.len()),
         }),
         &[
             "refwire/refl4 are the reading of the SCION header, SCION/UDP and SCMP formats; a defect shared by them and sciparse is invisible",
